@@ -52,12 +52,61 @@ def impl_pairs(prog, name):
     return pairs
 
 
+class Flat:
+    """Flattened view of a stream object: fields of PRIVATE helper structs (implementation detail: a group of history fields moved
+    into a non-exported sub-struct) are spliced in place, so the per-field rules see the same leaves either way."""
+    def __init__(self, fields, ty):
+        self.fields, self.ty = fields, ty
+
+
+def private_struct_ty(sim, t):
+    if not (t and t.get("k") == "adt"):
+        return False
+    a = sim.prog.adt(t["did"])
+    return bool(a) and a.get("kind") == "struct" and a.get("local") and not a.get("exported") and not a.get("opaque") \
+        and not is_adt(t, "SettableData") and not is_cache_ty(t)
+
+
+def flat_names(sim, sty, prefix=""):
+    out = []
+    for n, t in sim.adt_fields(sty):
+        if private_struct_ty(sim, t):
+            out += flat_names(sim, t, prefix + n + ".")
+        else:
+            out.append((prefix + n, t))
+    return out
+
+
+def flat(sim, st, v):
+    v = sim.expand(st, v) if st is not None else v
+    if not isinstance(v, Struct):
+        return Flat([v], getattr(v, "ty", None))
+    out = []
+    for f, (n, t) in zip(v.fields, sim.adt_fields(v.ty)):
+        if private_struct_ty(sim, t):
+            out += flat(sim, st, f).fields
+        else:
+            out.append(f)
+    return Flat(out, v.ty)
+
+
+def unflat(sim, sty, vals):
+    """inverse of flat for a given struct type; consumes from the list `vals`"""
+    fs = []
+    for n, t in sim.adt_fields(sty):
+        if private_struct_ty(sim, t):
+            fs.append(unflat(sim, t, vals))
+        else:
+            fs.append(vals.pop(0))
+    return Struct(sty, fs)
+
+
 def self_struct(sim, st, fn, gargs, conf, list_len=None):
-    """Symbolic self value (Struct of field symbols) with per-stream presets."""
+    """Symbolic self value (Struct of field symbols) with per-stream presets; names are the flattened leaves."""
     sty = subst(fn["sig_inputs"][0], gargs)["ty"]
     v = sim.expand(st, Sym("self", sty))
-    fields = list(v.fields)
-    names = sim.adt_fields(sty)
+    names = flat_names(sim, sty)
+    fields = list(flat(sim, st, v).fields)
     for i, (n, t) in enumerate(names):
         if conf.get("no_follow") and is_adt(t, "SettableData"):
             sd = sim.expand(st, fields[i])
@@ -70,7 +119,7 @@ def self_struct(sim, st, fn, gargs, conf, list_len=None):
         if list_len is not None and is_adt(t, "VecDeque"):
             et = t["args"][0]
             fields[i] = M.mk_list([Sym("self.%s[%d]" % (n, k), et) for k in range(list_len)], t)
-    return Struct(sty, fields), names
+    return unflat(sim, sty, list(fields)), names
 
 
 def run_update(sim, fn, gargs, cat, self_val):
@@ -126,7 +175,7 @@ def check_stream(chk, prog, sim, name, conf):
         chk.analysed(get["pretty"])
         gargs = sim.identity_gargs(up)
         ggargs = sim.identity_gargs(get)
-        s0 = constructor_state(sim, prog, name, None)
+        s0 = flat(sim, None, constructor_state(sim, prog, name, None))
         lens = [None]
         if conf.get("lists"):
             lens = [0, 1, 2] if chk.tier == "quick" else [0, 1, 2, 3]
@@ -153,8 +202,8 @@ def check_stream(chk, prog, sim, name, conf):
                         # panics on unreachable symbolic pre-states are not C05's business (C12 inventories panic sites)
                         continue
                     stl = leaf.state
-                    pre = sim.final_value(stl, sv)
-                    post = sim.final_value(stl, stl.mem[oid])
+                    pre = flat(sim, None, sim.final_value(stl, sv))
+                    post = flat(sim, None, sim.final_value(stl, stl.mem[oid]))
                     ret = K.classify_output(sim, stl, leaf.value)
                     e0 = Sym("e0")
                     # ---- O1 (update's own return)
@@ -225,16 +274,18 @@ def check_stream(chk, prog, sim, name, conf):
                 if cache_idx:
                     ci = cache_idx[0]
                     cty = names[ci][1]
+                    svf = flat(sim, st0, sv)
+
                     def fresh(cache_val):
                         fs = []
                         for i, (n, t) in enumerate(names):
                             if i == ci:
                                 fs.append(cache_val)
                             elif is_input_field(t) or is_adt(t, "SettableData") or depends_on_args(s0.fields[i]):
-                                fs.append(sv.fields[i])
+                                fs.append(svf.fields[i])
                             else:
                                 fs.append(s0.fields[i] if not is_adt(t, "VecDeque") else M.mk_list([], t))
-                        return Struct(sv.ty, fs)
+                        return unflat(sim, sv.ty, fs)
                     okn = sim.mk_enum(cty, "Ok", [sim.mk_enum(cty["args"][0], "None")])
                     err = sim.mk_enum(cty, "Err", [Sym("eold", cty["args"][1])])
                     for cat in ("E", "N", "S"):
